@@ -113,24 +113,35 @@ def check(rep, tier):
     # ---- re-shaped objects: the matrices must follow N_vials through any history of the object ----
     sf = impl.snowflake_mod()
     nseq = 6 if tier == "quick" else 40
-    for arr in ("square", "hexagonal"):
-        for s_i in range(nseq):
+    other = {"square": "hexagonal", "hexagonal": "square"}
+    FIXED = [[("H_int",), ("configPath",), ("H_int",)], [("group",), ("configPath",), ("H_ext",)], [("group",), ("configPath",), ("H_int",), ("configPath",), ("H_int",)],
+             [("H_ext",), ("shape", (3, 2, 2)), ("configPath",), ("H_ext",)]]
+    for arr0 in ("square", "hexagonal"):
+        for s_i in range(nseq + len(FIXED)):
             hist = []
+            arr = arr0
+            fixed = FIXED[s_i - nseq] if s_i >= nseq else None
             try:
                 with impl.quiet():
-                    S = sf.Snowflake(k=dict(K), N_vials=(rng.randint(1, 4), rng.randint(1, 4), rng.randint(1, 3)),
+                    S = sf.Snowflake(k=dict(K), N_vials=(rng.randint(1, 4), rng.randint(1, 4), rng.randint(1, 3)) if fixed is None else (3, 3, 1),
                                      configPath=impl.arrangement_cfg(arr))
-                    for step in range(8):
-                        op = rng.choice(["shape", "shape", "seed", "H_shelf", "H_int", "H_ext"])
+                    for step in range(8 if fixed is None else len(fixed)):
+                        op = rng.choice(["shape", "shape", "seed", "H_shelf", "H_int", "H_ext", "configPath", "group"]) if fixed is None else fixed[step][0]
                         if op == "shape":
                             # same or different vial count, different geometry
-                            shp = (rng.randint(1, 4), rng.randint(1, 4), rng.randint(1, 3))
+                            shp = (rng.randint(1, 4), rng.randint(1, 4), rng.randint(1, 3)) if fixed is None else fixed[step][1]
                             S.N_vials = shp
                             hist.append(["N_vials", shp])
                         elif op == "seed":
                             S.seed = rng.randint(0, 99); hist.append(["seed"])
                         elif op == "H_shelf":
                             _ = S.H_shelf; hist.append(["H_shelf"])
+                        elif op == "configPath":
+                            # the arrangement re-declared on the same object through the public setter
+                            arr = other[arr]
+                            S.configPath = impl.arrangement_cfg(arr); hist.append(["configPath", arr])
+                        elif op == "group":
+                            _ = S.getVialGroup("edge"); hist.append(["getVialGroup"])
                         else:
                             nx, ny, nz = S.N_vials
                             Aarea = S.const["A"]
@@ -139,18 +150,19 @@ def check(rep, tier):
                             hist.append([op])
                             G = geometric(arr, nx, ny, nz)
                             maxI = (4 if arr == "square" else 6) + (2 if nz > 1 else 0)
-                            rep.case("hist %s %s" % (arr, hist), nontrivial=len(hist) > 1)
+                            rep.case("hist %s %s" % (arr0, hist), nontrivial=len(hist) > 1)
                             rep.count("history-steps")
                             if H.shape != G.shape or (np.rint(H) != G - np.diag(G.sum(axis=1))).any() or (np.rint(E) != maxI - G.sum(axis=1)).any():
-                                rep.violation("stale-matrices-after-reshape",
-                                              "%s object after history %s: H_int/H_ext are not those of its current shape %s" % (arr, hist, (nx, ny, nz)),
-                                              dict(arrangement=arr, history=hist, shape=(nx, ny, nz)))
+                                redecl = any(h[0] == "configPath" for h in hist)
+                                rep.violation("stale-matrices-after-configPath" if redecl else "stale-matrices-after-reshape",
+                                              "object built as %s, after history %s: H_int/H_ext are not those of its current shape %s in its declared arrangement '%s'" % (arr0, hist, (nx, ny, nz), arr),
+                                              dict(arrangement=arr0, history=hist, shape=(nx, ny, nz), declared=arr))
                                 raise StopIteration
             except StopIteration:
                 pass
             except Exception as e:
-                rep.violation("reshape-crash %s" % type(e).__name__, "%s object, history %s raises %r" % (arr, hist, e),
-                              dict(arrangement=arr, history=hist, error=repr(e)))
+                rep.violation("reshape-crash %s" % type(e).__name__, "%s object, history %s raises %r" % (arr0, hist, e),
+                              dict(arrangement=arr0, history=hist, error=repr(e)))
     # ---- process history: the declared arrangement of an object is the one of ITS configuration (defaults + its own file), whatever
     #      other objects were built before it in the same process ----
     decl_default = impl.expected_config(None)["snowfall_parameters"]["vial_arrangement"]
